@@ -84,6 +84,11 @@ def run(ctx):
             for k, m in enumerate(msgs):
                 starts.append(pos)
                 pos += 3 + len(m.gen_msg())
+                if k >= 2 and rng.random() < 0.3:
+                    # another tool run: a new object on the capture that already has content
+                    ddf.f.flush()
+                    del ddf
+                    ddf = data_dump.DATADumpFile(path)
                 ddf.append_msg(m)
                 for _ in range(rng.randint(0, 3)):
                     kind = rng.choice(["all", "all", "idx"])
